@@ -3,6 +3,7 @@
 package gen
 
 import (
+	"encoding/json"
 	"fmt"
 	"strings"
 
@@ -30,6 +31,7 @@ type g struct {
 	names      map[string]bool // user type names used
 	seq        int
 	solo       []string                 // names of single-validation types (validation profile)
+	chain      []string                 // outer aliases of alias chains whose validations sit on the innermost alias
 	catchAll   map[string]*catchAllInfo // service -> first catch-all route
 	lastPrefix string
 }
@@ -246,8 +248,14 @@ func (x *g) genUserTypes() {
 			x.genObjectType("type")
 		}
 	}
+	if x.o.Profile != "grpc" && x.chance(2, 5) {
+		x.genDerivedType()
+	}
 	if x.o.Profile == "validation" && x.chance(2, 3) {
 		x.genSoloValidationTypes()
+	}
+	if (x.o.Profile == "validation" || x.o.Profile == "mixed") && x.o.Profile != "grpc" && x.chance(1, 2) {
+		x.genAliasChain()
 	}
 	nres := 0
 	switch x.o.Profile {
@@ -887,4 +895,101 @@ func (x *g) genSoloValidationTypes() {
 	wrap.Def.Attrs = append(wrap.Def.Attrs, &spec.Attr{Name: "note", Type: &spec.Type{Kind: spec.String}})
 	x.s.Types = append(x.s.Types, wrap)
 	x.solo = append(x.solo, solo.Name, wrap.Name)
+}
+
+// genAliasChain adds an alias of an alias (optionally of a third alias) whose validations sit on the INNERMOST
+// alias only: every attribute typed by the outer alias inherits them through the chain, in every location.
+func (x *g) genAliasChain() {
+	kind := []string{spec.String, spec.String, spec.Int, spec.Int32, spec.UInt32, spec.Float64, spec.Int64}[x.r.Intn(7)]
+	val := x.genVal(kind, nil)
+	for i := 0; val.Empty() && i < 8; i++ {
+		val = x.genVal(kind, nil)
+	}
+	if val.Empty() {
+		return
+	}
+	inner := &spec.UserType{Name: x.typeName("InnerAlias"), Kind: "alias", Def: &spec.Type{Kind: kind}, Val: val}
+	x.s.Types = append(x.s.Types, inner)
+	prev := inner
+	depth := x.r.Range(1, 2)
+	for i := 0; i < depth; i++ {
+		outer := &spec.UserType{Name: x.typeName("ChainAlias"), Kind: "alias", Def: &spec.Type{Kind: spec.Ref, Ref: prev.Name}}
+		x.s.Types = append(x.s.Types, outer)
+		prev = outer
+	}
+	x.chain = append(x.chain, prev.Name)
+	x.s.AddFeature("alias", "alias-chain", "alias-validation", "alias-chain-inner-validation")
+}
+
+func cloneAttr(a *spec.Attr) *spec.Attr {
+	b, _ := json.Marshal(a)
+	var c spec.Attr
+	_ = json.Unmarshal(b, &c)
+	return &c
+}
+
+// genDerivedType adds a user type that inherits from an earlier object type: Extend(base) merges every base
+// attribute (and its requiredness) into the derived type; Reference(base) lets attributes spelled without a type
+// take type, validations, default, description and requiredness from the base attribute of the same name. The
+// spec holds the EFFECTIVE definition (what the design means); dslprint spells it the inherited way.
+func (x *g) genDerivedType() {
+	var bases []*spec.UserType
+	for _, t := range x.s.Types {
+		if t.Kind == "type" && t.Def != nil && t.Def.Kind == spec.Object && !t.ErrorOnly && t.Extend == "" && t.Reference == "" &&
+			len(t.Def.Attrs) > 0 && !strings.HasPrefix(t.Name, "Solo") && !strings.HasPrefix(t.Name, "Wrap") {
+			bases = append(bases, t)
+		}
+	}
+	if len(bases) == 0 {
+		return
+	}
+	b := bases[x.r.Intn(len(bases))]
+	d := &spec.UserType{Name: x.typeName("Derived"), Kind: "type"}
+	x.s.Types = append(x.s.Types, d)
+	used := map[string]bool{}
+	for _, a := range b.Def.Attrs {
+		used[spec.Norm(a.Name)] = true
+	}
+	def := &spec.Type{Kind: spec.Object}
+	for i, n := 0, x.r.Range(1, 2); i < n; i++ {
+		a := x.genAttr(1, used, d.Name)
+		def.Attrs = append(def.Attrs, a)
+		if !a.HasDef && x.chance(1, 3) && !refsSelf(a.Type, d.Name) {
+			def.Required = append(def.Required, a.Name)
+		}
+	}
+	if x.chance(1, 2) {
+		d.Extend = b.Name
+		for _, a := range b.Def.Attrs {
+			c := cloneAttr(a)
+			c.Inherit = "extend"
+			c.InhReq = b.Def.IsRequired(a.Name)
+			def.Attrs = append(def.Attrs, c)
+			if c.InhReq {
+				def.Required = append(def.Required, a.Name)
+			}
+		}
+		x.s.AddFeature("extend")
+	} else {
+		d.Reference = b.Name
+		n := 0
+		for i, a := range b.Def.Attrs {
+			if !(x.chance(2, 3) || (n == 0 && i == len(b.Def.Attrs)-1)) {
+				continue
+			}
+			n++
+			c := cloneAttr(a)
+			c.Inherit = "reference"
+			c.InhReq = b.Def.IsRequired(a.Name)
+			def.Attrs = append(def.Attrs, c)
+			switch {
+			case c.InhReq:
+				def.Required = append(def.Required, a.Name)
+			case !c.HasDef && x.chance(1, 4) && !refsSelf(c.Type, b.Name):
+				def.Required = append(def.Required, a.Name) // required by the derived type only
+			}
+		}
+		x.s.AddFeature("reference")
+	}
+	d.Def = def
 }
